@@ -146,7 +146,7 @@ func runIsolated(id, tier string) int {
 	out := string(tail.buf)
 	hung := ctx.Err() != nil
 	repoPanic := strings.Contains(out, "panic:") && strings.Contains(out, "go.6river.tech/mmmbbb/") && panicInRepo(out)
-	deadlock := strings.Contains(out, "deadlock: all goroutines in bubble are blocked") || strings.Contains(out, "all goroutines are asleep")
+	deadlock := strings.Contains(out, "deadlock: all goroutines in bubble are blocked") || strings.Contains(out, "all goroutines are asleep") || strings.Contains(out, "HANG: the code under test")
 	if !(repoPanic || deadlock || hung) {
 		fmt.Fprintf(os.Stderr, "check %s: harness failure (exit %d), no verdict\n", id, code)
 		return 2
